@@ -25,6 +25,9 @@ static void f_reduce_int(PP* o, const lp_polynomial_t* a, const lp_polynomial_t*
   (void) lp_polynomial_top_variable(a); (void) lp_polynomial_top_variable(b);
   for (int i = 0; i < 3; ++i) (void) lp_polynomial_top_variable(o[i]);
   coefficient_reduce(pio_ctx, &a->data, &b->data, &o[0]->data, &o[1]->data, &o[2]->data, (remaindering_type_t) g_type);
+  /* the internal entry point writes the coefficient data only; the cached hash belongs to the public wrapper, which this
+     call bypasses, so it is invalidated here exactly as lp_polynomial_reduce does */
+  for (int i = 0; i < 3; ++i) o[i]->hash = 0;
 }
 static void f_div(PP* o, const lp_polynomial_t* a, const lp_polynomial_t* b) { lp_polynomial_div(o[0], a, b); }
 static void f_rem(PP* o, const lp_polynomial_t* a, const lp_polynomial_t* b) { lp_polynomial_rem(o[0], a, b); }
@@ -34,6 +37,7 @@ static void f_divrem(PP* o, const lp_polynomial_t* a, const lp_polynomial_t* b) 
 static void f_pdivrem(PP* o, const lp_polynomial_t* a, const lp_polynomial_t* b) { lp_polynomial_pdivrem(o[0], o[1], a, b); }
 static void f_spdivrem(PP* o, const lp_polynomial_t* a, const lp_polynomial_t* b) { lp_polynomial_spdivrem(o[0], o[1], a, b); }
 
+static unsigned hash_prior = 0;
 /* runs f in all output situations; prints the nout results of the fresh run (blank separated) */
 static void run_modes(mfun f, int nout, const char* A, const char* B, const char* U) {
   PP ref[MAXOUT];
@@ -47,12 +51,15 @@ static void run_modes(mfun f, int nout, const char* A, const char* B, const char
     for (int i = 0; i < nout; ++i) { out[i] = (mode == 1) ? pio_new(U) : lp_polynomial_new(pio_ctx); owned[i] = 1; }
     if (mode == 2) { lp_polynomial_delete(out[0]); out[0] = a; owned[0] = 0; }
     if (mode == 3) { lp_polynomial_delete(out[nout-1]); out[nout-1] = a; owned[nout-1] = 0; }
+    /* a cached hash is part of the prior state of an output (lp_polynomial_hash caches, every writer must reset it):
+       pre-used outputs always carry one, aliased dividends in every other case */
+    if (mode == 1 || (mode >= 2 && (hash_prior++ & 1))) for (int i = 0; i < nout; ++i) (void) lp_polynomial_hash(out[i]);
     f(out, a, b);
     if (mode == 0) {
       for (int i = 0; i < nout; ++i) { ref[i] = out[i]; owned[i] = 0; }
     } else {
       for (int i = 0; i < nout; ++i) {
-        if (bad_mode < 0 && lp_polynomial_cmp(ref[i], out[i]) != 0) {
+        if (bad_mode < 0 && (lp_polynomial_cmp(ref[i], out[i]) != 0 || !lp_polynomial_eq(ref[i], out[i]))) {
           bad_mode = mode; bad_out = i; bad_val = lp_polynomial_new_copy(out[i]);
         }
       }
